@@ -1127,8 +1127,9 @@ json.dump(out, sys.stdout)
             return
         own_img = m.image(S, relations=True, default_mode=default)
         all_ss = w.synsets()
-        if len(all_ss) > 150:          # big universe: the hub + a seeded sample
-            all_ss = all_ss[:2] + rng.sample(all_ss[2:], 12)
+        if len(all_ss) > 150:          # big universe: the hubs + a seeded sample
+            hubs = [x for x in all_ss[2:] if x.id.endswith('-s0')]
+            all_ss = all_ss[:2] + hubs + rng.sample(all_ss[2:], 12)
         for ss in all_ss:
             key = observe.ekey(ss)
             owner = key.split('|')[0]
@@ -1286,7 +1287,7 @@ json.dump(out, sys.stdout)
                     n += 1
                     if n > 200:
                         break
-        if rng.random() < 0.3:
+        if rng.random() < 0.3 and not ctx.get('retained'):
             self.check_shortcut_handles(ctx, own_img, rng)
 
     def check_shortcut_handles(self, ctx, own_img, rng):
